@@ -99,7 +99,10 @@ def slotted(  # noqa: C901
 
         cls_dict = {**cls.__dict__}
         # Create only missing slots
-        inherited_slots = set().union(*(getattr(c, "__slots__", ()) for c in cls.mro()))
+        # (the slots of the class itself are rebuilt, not inherited: it may be slotted already)
+        inherited_slots = set().union(
+            *(getattr(c, "__slots__", ()) for c in cls.mro()[1:])
+        )
 
         field_names = {f.name: ... for f in dataclasses.fields(cls) if f.name}
         # A base without __slots__ already provides __dict__/__weakref__;
